@@ -1762,7 +1762,7 @@ impl<R: Read> Vp8Decoder<R> {
 
                 let n = self.read_coefficients(block, p, plane, complexity as usize, dcq, acq)?;
 
-                non_zero |= block.iter().any(|&c| c != 0);
+                non_zero |= n || block[0] != 0;
                 if block[0] != 0 || n {
                     transform::idct4x4(block);
                 }
@@ -1791,7 +1791,7 @@ impl<R: Read> Vp8Decoder<R> {
 
                     let n =
                         self.read_coefficients(block, p, plane, complexity as usize, dcq, acq)?;
-                    non_zero |= block.iter().any(|&c| c != 0);
+                    non_zero |= n || block[0] != 0;
                     if block[0] != 0 || n {
                         transform::idct4x4(block);
                     }
